@@ -60,6 +60,10 @@ class Recorder:
             rec.major_call = (gene, coverage, a, {kk: v for kk, v in k.items() if kk != "identifier"})
             if rec.fail_stage == "major":
                 res = []
+            # one structure without admissible major solutions (the copy-number stage keeps a configuration on weaker
+            # evidence than the major stage accepts): the other structures must be scored as if it had not been there
+            if getattr(rec, "fail_major_index", None) is not None and len(rec.majors) == rec.fail_major_index:
+                res = []
             for s in res:
                 s.score += rec.perturb()
             rec.majors.append({"cn_nice": cn_solution._solution_nice(), "cn_score": cn_solution.score,
@@ -104,6 +108,7 @@ def make_case(r):
     return {"yaml": y, "copies": copies, "depths": depths, "gap": r.choice(["0", "0.1", "0.3", "0.5", "0.5", "1"]),
             "max_minor_solutions": r.choice([1, 1, 3]), "fail_stage": r.choice([None] * 21 + ["cn", "major", "minor"]),
             "perturb_seed": r.choice([None, r.randint(0, 10**6), r.randint(0, 10**6)]),
+            "fail_major_index": r.choice([None, None, None, 0, 0, 1]),
             # the sample reaches genotype() as a debug archive written by an earlier run with default parameters: the gap and
             # the solution count asked for now must govern the selection, as for any other input
             "via_dump": r.random() < 0.3}
@@ -125,6 +130,7 @@ def run_case(d, case, idx):
     sim.write_bam(bam, reads, length=sim.chrom_length_for(g))
     rec = Recorder()
     rec.fail_stage = case.get("fail_stage")
+    rec.fail_major_index = case.get("fail_major_index")
     if case.get("perturb_seed") is not None:
         import random
         rec.perturb_rng = random.Random(case["perturb_seed"])
@@ -208,6 +214,25 @@ def oracle(case, out):
                     why.append(f"structure {c._solution_nice()} (score {c.score:.4f}) was returned by the copy-number stage but never handed to the major stage, although its major solution "
                                f"{s_._solution_nice()} (carried score {cs:.4f}) lies within the gap of the best major score {min(carried + [cs]):.4f}")
                     break
+    # the major solutions handed to the refinement stage: every one carries its own raw score plus the score difference of
+    # ITS structure to the best structure, and they are exactly the ones within the gap of the best carried score
+    raw = {}
+    for m in rec.majors:
+        for sc, n in m["sols"]:
+            raw.setdefault((m["cn_nice"], n), []).append((sc, m["cn_score"]))
+    all_carried = [sc + (m["cn_score"] - min_cn) for m in rec.majors for sc, _ in m["sols"]]
+    for (msc, mnice, cnice, cscore) in rec.selected_view:
+        opts = raw.get((cnice, mnice), [])
+        if opts and not any(abs(msc - (sc + (cs - min_cn))) < 1e-6 for sc, cs in opts):
+            sc, cs = opts[0]
+            why.append(f"major solution {mnice} of structure {cnice} enters the refinement with score {msc:.6f}; its own score {sc:.6f} plus the "
+                       f"score difference of its structure ({cs:.6f} - {min_cn:.6f}) is {sc + cs - min_cn:.6f}")
+    if all_carried:
+        mb = min(all_carried)
+        n_expect = sum(1 for c in all_carried if c - mb - gap < 0.01 - 1e-9)
+        n_maybe = sum(1 for c in all_carried if c - mb - gap < 0.01 + 1e-9)
+        if not why and not (n_expect <= len(rec.selected_view) <= n_maybe):
+            why.append(f"{len(rec.selected_view)} major solutions handed to the refinement, {n_expect} lie within the gap of the best carried score {mb:.6f}")
     # combined score of each refined candidate
     sel_min = min(m[0] for m in rec.selected_view)
     cands = []
